@@ -50,7 +50,9 @@ def write(pid, tier, seed, level, res, wall, rule, bounds, exhaustive, assumptio
         'violations': int(unlisted),
     }
     _selfcheck(ev)
-    d = os.path.join(VERIF, 'evidence')
+    # runs against a scratch copy ($VERIF_REPO, used for seeded changes) must not replace the evidence of /repo
+    scratch = os.path.abspath(os.environ.get('VERIF_REPO', '/repo')) != '/repo'
+    d = os.path.join(VERIF, 'replays', 'scratch-evidence') if scratch else os.path.join(VERIF, 'evidence')
     os.makedirs(d, exist_ok=True)
     path = os.path.join(d, f'{pid}.json')
     tmp = path + '.tmp'
